@@ -243,6 +243,33 @@ func runComp(script []string) *caseResult {
 					}
 				}
 			}
+		case "c.repl":
+			// the replicator on its own: ReplicateMultiple from the slow/secondary into the fast/primary backend
+			ops++
+			var ks []int
+			for i := 1; i < len(w); i++ {
+				ks = append(ks, n(i))
+			}
+			ks = sortedUnique(ks)
+			srcBefore, sinkBefore := src.snapshot(), sink.snapshot()
+			err := r.ReplicateMultiple(ctx, setOf(ks))
+			emit("c.repl "+showKeysOrNothing(ks), canonErr(err))
+			if !reflect.DeepEqual(src.snapshot(), srcBefore) {
+				res.fail("replication changed the contents of its source", line)
+			}
+			for kk, vv := range sink.snapshot() {
+				if old, had := sinkBefore[kk]; (!had || old != vv) && srcBefore[kk] != vv {
+					res.fail("replication stored something in the sink that the source did not hold", line)
+				}
+			}
+			if err == nil && copying(repl) {
+				for _, k := range ks {
+					if _, ok := sink.data[k]; !ok {
+						res.fail("a copying replicator reported success although the sink does not hold the object",
+							fmt.Sprintf("%s -> ok, object %d, sink=%s", line, k, sink.dump(compKeys)))
+					}
+				}
+			}
 		case "c.dump":
 			emit(fmt.Sprintf("c.dump %d", compKeys), fmt.Sprintf("src:%s sink:%s", src.dump(compKeys), sink.dump(compKeys)))
 		}
@@ -298,8 +325,10 @@ func genComp(r *hx.Rand) []string {
 			script = append(script, fmt.Sprintf("c.cput %d %d", k, r.Range(1, 99)))
 		case x < 88:
 			script = append(script, fmt.Sprintf("c.fput %d %d", k, r.Range(1, 99)))
-		case x < 92:
+		case x < 91:
 			script = append(script, "c.cfm "+showKeysOrNothing(randKeys(r, compKeys)))
+		case x < 95:
+			script = append(script, "c.repl "+showKeysOrNothing(randKeys(r, compKeys)))
 		default:
 			script = append(script, "c.ffm "+showKeysOrNothing(randKeys(r, compKeys)))
 		}
